@@ -14,14 +14,14 @@ Types == {"single", "one_month", "three_month", "three_month_weighted"}
 SortedSubseqs == {SetToSortSeq(S, <) : S \in SUBSET Endpoints}
 Expected(i) ==
   CASE i.kind = "weights" -> [res |-> "ok", nd |-> 1, w2 |-> ExpW2(i.type, i.m), colsOk |-> TRUE]
-    [] i.kind = "route" -> [res |-> "ok", nd |-> 1, code |-> i.m, nnan |-> 0]
+    [] i.kind = "route" -> IF HasModel(i) THEN [res |-> "ok", nd |-> 1, code |-> i.m, nnan |-> 0] ELSE [res |-> "ok", nd |-> 0, code |-> -1, nnan |-> 1]
     [] i.kind = "bins" -> [res |-> "ok", bins |-> Bins(i.T, i.E), exact |-> TRUE]
     [] i.kind = "occ" -> [res |-> "ok", exact |-> TRUE, obins |-> IF i.occ = 1 THEN Bins(i.T, i.Eo) ELSE Zeros(Len(i.Eo) + 1),
                           ubins |-> IF i.occ = 0 THEN Bins(i.T, i.Eu) ELSE Zeros(Len(i.Eu) + 1)]
     [] i.kind = "how" -> [res |-> "ok", how |-> 24 * i.dow + i.hour]
 Init ==
   /\ \/ \E t \in Types, y \in Years, m \in 1..12, z \in Zones : in = [kind |-> "weights", type |-> t, y |-> y, m |-> m, tz |-> z]
-     \/ \E y \in Years, m \in 1..12, z \in Zones : in = [kind |-> "route", y |-> y, m |-> m, tz |-> z]
+     \/ \E y \in Years, m \in 1..12, z \in Zones, f \in {"all", "djf"} : in = [kind |-> "route", y |-> y, m |-> m, tz |-> z, fit |-> f]
      \/ \E T \in Temps, E \in SortedSubseqs : in = [kind |-> "bins", T |-> T, E |-> E]
      \/ \E o \in {0, 1}, T \in Temps, Eo \in SortedSubseqs, Eu \in SortedSubseqs :
           /\ Len(Eo) + Len(Eu) <= 4
